@@ -133,6 +133,13 @@ func (p *provider) GetOrCreate(ctx context.Context, state State, cache bool) (Cu
 	}
 
 	p.lock.Lock()
+	if _, ok := p.curs[cur.Id()]; ok {
+		// another request with the same id has put its cursor into the cache while this one was being
+		// created: the concurrent request is refused, never interleaved
+		p.lock.Unlock()
+		cur.close()
+		return nil, errors.Errorf("crsr usage violation: concurrent request for id=%d", state.Id)
+	}
 	e := p.free
 	if e != nil {
 		p.free = p.free.TearOff(e)
@@ -162,6 +169,11 @@ func (p *provider) Release(ctx context.Context, curs Cursor) State {
 	res := cur.commit(ctx)
 	p.lock.Lock()
 	e, ok := p.curs[cur.Id()]
+	if ok && e.Val.(*curHldr).cur != cur {
+		// the cache entry belongs to another cursor with the same id (this one was never cached, or the
+		// sweeper has dropped it while it was busy): it must not touch that entry, and it is closed here
+		ok = false
+	}
 	if !ok {
 		p.lock.Unlock()
 		p.logger.Debug("Releasing cursor, which is not in the cache anymore: ", cur)
